@@ -496,7 +496,7 @@ def run(ctx):
             ctx.violation(f"{pid}:tools", "cannot build tl2gen/verifdump from /repo: " + trunc(berr, 600), {"error": berr}, no_input=True)
         if ref_err:
             ctx.violation(f"{pid}:model-build", "reference model does not build: " + trunc(ref_err, 600), {"error": ref_err}, no_input=True)
-        for name, e in unit_errors[:10]:
+        for name, e in reportable_unit_errors(unit_errors, ctx)[:10]:
             ctx.violation(f"{pid}:unit:{name}", f"schema unit {name}: {trunc(e, 600)}", {"unit": name, "error": e}, no_input=True)
         for name, l, m, g in mism[:30]:
             ctx.violation(f"{pid}:corr:{name}:{trunc(l, 60)}", f"corr:C08:total {name}: model and generated code differ on {trunc(l, 140)}: model={trunc(m, 90)} go={trunc(g, 90)}",
